@@ -258,9 +258,18 @@ def compare_ok(op, impl_toks, model_toks, tol, abs_scale=None):
                 return False
             a = sorted(vi, key=item_key)
             b = sorted(vm, key=item_key)
-            for x, y in zip(a, b):
-                if not seq_eq(x, y, tol, scale):
+            if not all(seq_eq(x, y, tol, scale) for x, y in zip(a, b)):
+                # near-ties in a leading component can sort the two lists differently (rounded vs exact values): match the items as sets
+                if not tol or len(a) > 4000:
                     return False
+                rest = list(b)
+                for x in a:
+                    for k, y in enumerate(rest):
+                        if seq_eq(x, y, tol, scale):
+                            del rest[k]
+                            break
+                    else:
+                        return False
     return True
 
 # ---- special comparators (functions the model does not evaluate: sqrt, ln, powf, division to f64) ----
